@@ -234,6 +234,7 @@ R("eq-c20-plane-refactored", U, "    rs = rho / (t_mm / 1e3)\n    return (rs * l
 FIX_REVERT_FIRES = {
     "F1": ["C03", "C01", "C02"], "F2": ["C11"], "F3": ["C12"], "F4": ["C17"], "F5": ["C15"], "F6": ["C14"],
     "F7": ["C16"], "F8": ["C07", "C16"], "F9": ["C05", "C08", "C01"], "F10": ["C08"], "F11": ["C02"],
+    "F12": ["C15"], "F13": ["C14"],
 }
 
 
@@ -411,19 +412,20 @@ def _c14():
     _cparams = {
         "name": "rloss",''', fires=["C14"])
     R("c14-relink-to-all-parents", S, "                for c in childs[eidx]:\n                    self._g.add_edge(parents[eidx][0], c, None)", "                for c in childs[eidx]:\n                    for q in parents[eidx]:\n                        self._g.add_edge(q, c, None)", fires=["C14"])
-    R("c15-add-comp-type-check-after-add", S, '''        # can only have one pmux
+    R("c14-add-comp-single-pmux-check-dropped", S, '''        # can only have one pmux
         if comp._component_type.name == "PMUX":
             for key in self._g.attrs["nodes"]:
                 if self._g[self._g.attrs["nodes"][key]]._component_type.name == "PMUX":
                     raise ValueError("a system can only have one PMux")
-        # all ok, add component
-        cidx = self._g.add_child(pidx[0], comp, None)''', '''        # all ok, add component
-        cidx = self._g.add_child(pidx[0], comp, None)
+        # loads have no output rail (warn before anything is modified)''', '''        # loads have no output rail (warn before anything is modified)''', fires=["C14"], silent=[])
+    R("c15-add-comp-pmux-check-after-add", S, '''        cidx = self._g.add_child(pidx[0], comp, None)
+        self._g.attrs["nodes"][comp._params["name"]] = cidx''', '''        cidx = self._g.add_child(pidx[0], comp, None)
         # can only have one pmux
         if comp._component_type.name == "PMUX":
             for key in self._g.attrs["nodes"]:
                 if self._g[self._g.attrs["nodes"][key]]._component_type.name == "PMUX":
-                    raise ValueError("a system can only have one PMux")''', fires=["C15"])
+                    raise ValueError("a system can only have one PMux")
+        self._g.attrs["nodes"][comp._params["name"]] = cidx''', fires=["C15"])
     R("c15-change-comp-validate-after-replace", S, '''        # check that component allows its existing childs
         childs = self._get_childs()''', '''        self._g[eidx] = comp
         # check that component allows its existing childs
